@@ -109,10 +109,11 @@ def signature(fmt, v, o):
         return None
     if not rfc and fmt["kind"] == "text" and "," in io.text(fmt["delim"]) and o["write"] == "ok" and o.get("bytes_equal") \
             and (o["read"] == "error" or (o["read"] == "ok" and o["cmp"] != (0, 0))):
-        # a top-level ADT or symbol field whose text holds a ',' protected only by parentheses / by an ADT's argument list
+        # a top-level ADT field whose text holds a ',' (argument list, or a record argument: the reader ends the field
+        # at the record's ']')
         for (ty, x), ft in zip(zip(types, v["t"]), io.seq(v.get("fields")) or []):
-            if ty in ("A", "s") and "," in io.text(ft) and "(" in io.text(ft):
-                return "comma-delimiter-parens"
+            if ty == "A" and "," in io.text(ft):
+                return "comma-delimiter-adt"
     return None
 
 def judge(res, kf, fmt, v, o, d, files):
